@@ -495,8 +495,8 @@ type c15Inst struct {
 	layout  *c15Layout
 	ops     []c15Op
 	got     []string
-	sync    []string // results of the sync-mode reader on the same history (file instances)
-	syncC   []string // ... on the history with bursts of seeks collapsed to their last seek
+	sync    []string  // results of the sync-mode reader on the same history (file instances)
+	syncC   []string  // ... on the history with bursts of seeks collapsed to their last seek
 	rowsTxt [3]string // async, sync, sync collapsed
 	procs   int
 	jitter  int
